@@ -117,10 +117,13 @@ type vfC13Model struct {
 	Gap map[string]map[string]uint64
 	// per user and channel: the periods during which the user had access
 	Periods map[string]map[string][]vfC13Span
+	// per user and role: the sequence since which the user has been assigned the role without
+	// interruption (whatever the sources)
+	MemStart map[string]map[string]uint64
 }
 
 func vfC13NewModel() *vfC13Model {
-	return &vfC13Model{Docs: map[string]*vfC13Doc{}, Users: map[string]*vfC13Princ{}, Roles: map[string]*vfC13Princ{}, Gap: map[string]map[string]uint64{}, Periods: map[string]map[string][]vfC13Span{}}
+	return &vfC13Model{Docs: map[string]*vfC13Doc{}, Users: map[string]*vfC13Princ{}, Roles: map[string]*vfC13Princ{}, Gap: map[string]map[string]uint64{}, Periods: map[string]map[string][]vfC13Span{}, MemStart: map[string]map[string]uint64{}}
 }
 
 func vfC13CopySpans(m map[string][]vfC13Span) map[string][]vfC13Span {
@@ -176,6 +179,7 @@ func (m *vfC13Model) Clone() *vfC13Model {
 		c.Roles[n] = p.clone()
 	}
 	c.Gap = vfC13Copy2(m.Gap)
+	c.MemStart = vfC13Copy2(m.MemStart)
 	for u, p := range m.Periods {
 		c.Periods[u] = vfC13CopySpans(p)
 	}
@@ -582,6 +586,20 @@ func (m *vfC13Model) noteGaps() {
 		}
 		if m.Periods[name] == nil {
 			m.Periods[name] = map[string][]vfC13Span{}
+		}
+		if m.MemStart[name] == nil {
+			m.MemStart[name] = map[string]uint64{}
+		}
+		assigned := m.userRoles(name)
+		for r := range assigned {
+			if m.MemStart[name][r] == 0 {
+				m.MemStart[name][r] = m.Seq
+			}
+		}
+		for r := range m.MemStart[name] {
+			if _, ok := assigned[r]; !ok {
+				delete(m.MemStart[name], r)
+			}
 		}
 		eff := m.Effective(name)
 		for _, c := range vfC13AllChans {
